@@ -27,6 +27,7 @@ package spdxexp
 //@ pred okNest(r [][]*node) = forall i :: 0 <= i && i < len(r) ==> okAlt(r[i])
 //@ pred allLeaves(s []*node) = forall k :: 0 <= k && k < len(s) ==> leaf(s[k])
 //@ pred freshNest(r [][]*node) = (r == nil || fresh(r)) && forall i :: 0 <= i && i < len(r) ==> fresh(r[i])
+//@ pred distinctNest(r [][]*node) = forall i, j :: 0 <= i && i < j && j < len(r) ==> arr(r[i]) != arr(r[j])
 
 //@ pred okStream(t *tokenStream) = t != nil && 0 <= t.index && t.index <= len(t.tokens)
 //@ pred okExp(e *expressionStream) = e != nil && 0 <= e.index && e.index <= len(e.expression)
@@ -52,37 +53,109 @@ package spdxexp
 //@   ensures[C04] isErr(result1) ==> result0 == nil
 //@   defines[C04] !isErr(result1) <==> V(source)
 //@   defines[C04] !isErr(result1) ==> (K(source) <==> result0.role == 0)
+//@   ensures[C05] !isErr(result1) <==> (len(source) > 0 && Lexable(source) && TokLen(source) > 0 && sExpr(TokSeq(source), TokLen(source), 0) == TokLen(source))
+//@   ensures[C01,C06,C10] !isErr(result1) ==> result0.tree == tExpr(TokSeq(source), TokLen(source), 0)
 //@ end
 
+// Reference grammar at token level (C05), written from the property text:
+//   expr := and {OR and};  and := atom {AND atom};
+//   atom := ( expr ) | [DocumentRef :] LicenseRef | license [+] [WITH exception]
+// AND binds tighter than OR, chains nest to the right.  sX(a,n,i) is the end
+// index of the derivation of X starting at token i (or -1), tX(a,n,i) its tree.
+// Token roles: 0 operator, 1 DocumentRef, 2 LicenseRef, 3 license, 4 exception.
+// The definitions are recursive; govc unfolds them one level at the ground
+// instances that occur in each verification condition.
+
+//@ ghostsort Tree
+//@ smt (declare-datatypes ((Tree 0)) (((TLic (tl-id String) (tl-plus Bool) (tl-hasexc Bool) (tl-exc String)) (TRef (tr-hasdoc Bool) (tr-doc String) (tr-ref String)) (TNode (tn-conj String) (tn-l Tree) (tn-r Tree)))))
+//@ smtfn TLic(id string, plus bool, hasExc bool, exc string) Tree = TLic
+//@ smtfn TRef(hasDoc bool, doc string, ref string) Tree = TRef
+//@ smtfn TNode(conj string, l Tree, r Tree) Tree = TNode
+//@ smtfn isTNode(t Tree) bool = (_ is TNode)
+//@ smtfn isTLic(t Tree) bool = (_ is TLic)
+//@ smtfn isTRef(t Tree) bool = (_ is TRef)
+//@ smtfn tnConj(t Tree) string = tn-conj
+//@ smtfn tnL(t Tree) Tree = tn-l
+//@ smtfn tnR(t Tree) Tree = tn-r
+//@ smtfn tlId(t Tree) string = tl-id
+//@ smtfn tlPlus(t Tree) bool = tl-plus
+//@ smtfn tlHasExc(t Tree) bool = tl-hasexc
+//@ smtfn tlExc(t Tree) string = tl-exc
+//@ smtfn trHasDoc(t Tree) bool = tr-hasdoc
+//@ smtfn trDoc(t Tree) string = tr-doc
+//@ smtfn trRef(t Tree) string = tr-ref
+
+// The abstract value of a node (ghost field, defined when the node is built; nodes are immutable).
+//@ ghostfield node.tree(n) Tree = ite(n.role == 0, TNode(n.exp.conjunction, n.exp.left.tree, n.exp.right.tree),
+//@    ite(n.role == 2, TLic(n.lic.license, n.lic.hasPlus, n.lic.hasException, n.lic.exception), TRef(n.ref.hasDocumentRef, n.ref.documentRef, n.ref.licenseRef)))
+
+//@ pred isOp(a seq[token], n int, i int, s string) = 0 <= i && i < n && a[i].role == 0 && a[i].value == s
+//@ pred roleAt(a seq[token], n int, i int, r int) = 0 <= i && i < n && a[i].role == r
+//@ pred plusEnd(a seq[token], n int, j int) = ite(isOp(a, n, j, "+"), j + 1, j)
+//@ pred licEnd(a seq[token], n int, i int) = ite(isOp(a, n, plusEnd(a, n, i + 1), "WITH"), ite(roleAt(a, n, plusEnd(a, n, i + 1) + 1, 4), plusEnd(a, n, i + 1) + 2, 0 - 1), plusEnd(a, n, i + 1))
+//@ pred licTree(a seq[token], n int, i int) = TLic(a[i].value, HasSuffix(a[i].value, "-or-later") || isOp(a, n, i + 1, "+"), isOp(a, n, plusEnd(a, n, i + 1), "WITH"), ite(isOp(a, n, plusEnd(a, n, i + 1), "WITH"), a[plusEnd(a, n, i + 1) + 1].value, ""))
+
+//@ def[3] sAtom(a seq[token], n int, i int) int = ite(isOp(a, n, i, "("), ite(sExpr(a, n, i + 1) >= 0 && isOp(a, n, sExpr(a, n, i + 1), ")"), sExpr(a, n, i + 1) + 1, 0 - 1),
+//@    ite(roleAt(a, n, i, 1), ite(isOp(a, n, i + 1, ":") && roleAt(a, n, i + 2, 2), i + 3, 0 - 1),
+//@    ite(roleAt(a, n, i, 2), i + 1,
+//@    ite(roleAt(a, n, i, 3), licEnd(a, n, i), 0 - 1))))
+//@ def[3] sAnd(a seq[token], n int, i int) int = ite(sAtom(a, n, i) < 0, 0 - 1, ite(isOp(a, n, sAtom(a, n, i), "AND"), sAnd(a, n, sAtom(a, n, i) + 1), sAtom(a, n, i)))
+//@ def[3] sExpr(a seq[token], n int, i int) int = ite(sAnd(a, n, i) < 0, 0 - 1, ite(isOp(a, n, sAnd(a, n, i), "OR"), sExpr(a, n, sAnd(a, n, i) + 1), sAnd(a, n, i)))
+//@ def tAtom(a seq[token], n int, i int) Tree = ite(isOp(a, n, i, "("), tExpr(a, n, i + 1), ite(roleAt(a, n, i, 1), TRef(true, a[i].value, a[i + 2].value), ite(roleAt(a, n, i, 2), TRef(false, "", a[i].value), licTree(a, n, i))))
+//@ def tAnd(a seq[token], n int, i int) Tree = ite(isOp(a, n, sAtom(a, n, i), "AND"), TNode("and", tAtom(a, n, i), tAnd(a, n, sAtom(a, n, i) + 1)), tAtom(a, n, i))
+//@ def tExpr(a seq[token], n int, i int) Tree = ite(isOp(a, n, sAnd(a, n, i), "OR"), TNode("or", tAnd(a, n, i), tExpr(a, n, sAnd(a, n, i) + 1)), tAnd(a, n, i))
+
 //@ func (*tokenStream).parseExpression
-//@   requires okStream(t)
+//@   requires okStream(t) && !isErr(t.err)
 //@   modifies t.index, t.err
 //@   ensures[C03] okStream(t)
+//@   ensures[C05,C01,C10] !isErr(t.err) <==> sExpr(elems(t.tokens), len(t.tokens), old(t.index)) >= 0
+//@   ensures[C05,C01,C06,C10] !isErr(t.err) ==> result != nil && t.index == sExpr(elems(t.tokens), len(t.tokens), old(t.index)) && result.tree == tExpr(elems(t.tokens), len(t.tokens), old(t.index))
+//@   ensures[C04] isErr(t.err) ==> result == nil
 //@ end
 
 //@ func (*tokenStream).parseAnd
-//@   requires okStream(t)
+//@   requires okStream(t) && !isErr(t.err)
 //@   modifies t.index, t.err
 //@   ensures[C03] okStream(t)
+//@   ensures[C05,C01,C10] !isErr(t.err) <==> sAnd(elems(t.tokens), len(t.tokens), old(t.index)) >= 0
+//@   ensures[C05,C01,C06,C10] !isErr(t.err) ==> result != nil && t.index == sAnd(elems(t.tokens), len(t.tokens), old(t.index)) && result.tree == tAnd(elems(t.tokens), len(t.tokens), old(t.index))
+//@   ensures[C04] isErr(t.err) ==> result == nil
 //@ end
 
 //@ func (*tokenStream).parseAtom
-//@   requires okStream(t)
+//@   requires okStream(t) && !isErr(t.err)
 //@   modifies t.index, t.err
 //@   ensures[C03] okStream(t)
+//@   ensures[C05,C01,C10] !isErr(t.err) <==> sAtom(elems(t.tokens), len(t.tokens), old(t.index)) >= 0
+//@   ensures[C05,C01,C06,C10] !isErr(t.err) ==> result != nil && t.index == sAtom(elems(t.tokens), len(t.tokens), old(t.index)) && result.tree == tAtom(elems(t.tokens), len(t.tokens), old(t.index))
+//@   ensures[C04] isErr(t.err) ==> result == nil
 //@ end
 
 //@ func (*tokenStream).parseParenthesizedExpression
-//@   requires okStream(t)
+//@   requires okStream(t) && !isErr(t.err)
 //@   modifies t.index, t.err
 //@   ensures[C03] okStream(t)
+//@   ensures[C05] !isOp(elems(t.tokens), len(t.tokens), old(t.index), "(") ==> result == nil && !isErr(t.err) && t.index == old(t.index)
+//@   ensures[C05,C01,C10] isOp(elems(t.tokens), len(t.tokens), old(t.index), "(") ==> (!isErr(t.err) <==> (sExpr(elems(t.tokens), len(t.tokens), old(t.index) + 1) >= 0 && isOp(elems(t.tokens), len(t.tokens), sExpr(elems(t.tokens), len(t.tokens), old(t.index) + 1), ")")))
+//@   ensures[C05,C01,C06,C10] isOp(elems(t.tokens), len(t.tokens), old(t.index), "(") && !isErr(t.err) ==> result != nil && t.index == sExpr(elems(t.tokens), len(t.tokens), old(t.index) + 1) + 1 && result.tree == tExpr(elems(t.tokens), len(t.tokens), old(t.index) + 1)
+//@   ensures[C04] isErr(t.err) ==> result == nil
 //@ end
 
 // ---------------------------------------------------------------------------
 // scan.go
 
+// The token sequence of a string: Lexable / TokLen / TokSeq are logical functions of the string, introduced by
+// the deterministic scanner the same way as V (definitions by the code, listed as assumptions).  What they are in
+// terms of characters is the lexical level of C05.
+//@ fn Lexable(s string) bool
+//@ fn TokLen(s string) int
+//@ fn TokSeq(s string) seq[token]
+
 //@ func scan
 //@   modifies nothing
+//@   defines[C05] !isErr(result1) <==> Lexable(expression)
+//@   defines[C05] !isErr(result1) ==> len(result0) == TokLen(expression) && elems(result0) == TokSeq(expression)
 //@   loop 0:
 //@     invariant[C03] okExp(exp) && fresh(exp)
 //@     invariant[C03] tokens == nil || fresh(tokens)
@@ -161,21 +234,70 @@ package spdxexp
 //@     invariant[C09] $i <= len(licenses) && forall k :: 0 <= k && k < $i ==> !EqualFold(licenses[k], id)
 //@ end
 
+// Position of an id in the abstract version-family table RangeAt (whatever table the tree ships):
+// InT(s): s occurs in the table; (Fam(s), Ver(s)): the lexicographically first (family, version) position of s.
+// These axioms are the definitions of InT / Fam / Ver.
+//@ pred atPos(s string, i int, j int, k int) = 0 <= i && i < RangeFamilies() && 0 <= j && j < RangeVersions(i) && 0 <= k && k < RangeIds(i, j) && RangeAt(i, j, k) == s
+//@ fn InT(s string) bool
+//@ fn Fam(s string) int
+//@ fn Ver(s string) int
+//@ fn Idx(s string) int
+//@ axiom forall i int, j int, k int {RangeAt(i, j, k)} :: atPos(RangeAt(i, j, k), i, j, k) ==> InT(RangeAt(i, j, k)) && (Fam(RangeAt(i, j, k)) < i || (Fam(RangeAt(i, j, k)) == i && Ver(RangeAt(i, j, k)) <= j))
+//@ axiom forall s string {InT(s)} :: InT(s) ==> atPos(s, Fam(s), Ver(s), Idx(s))
+//@ pred simp(id string) = ite(HasSuffix(id, "-or-later"), id[0:len(id) - 9], id)
+
 //@ func getLicenseRange
 //@   modifies nothing
+//@   ensures[C02,C11] result == nil <==> !InT(simp(id))
+//@   ensures[C02,C11] result != nil ==> result.location != nil && has(result.location, 0) && has(result.location, 1) && result.location[0] == Fam(simp(id)) && result.location[1] == Ver(simp(id))
+//@   loop 0:
+//@     invariant[C02,C11] allRanges == old(allRanges)
+//@     invariant[C02,C11] forall i, j, k {RangeAt(i, j, k)} :: 0 <= i && i < $i ==> !atPos(simp(id), i, j, k)
+//@   loop 1:
+//@     invariant[C02,C11] forall i, j, k {RangeAt(i, j, k)} :: 0 <= i && i < $i0 ==> !atPos(simp(id), i, j, k)
+//@     invariant[C02,C11] forall j, k {RangeAt($i0, j, k)} :: 0 <= j && j < $i ==> !atPos(simp(id), $i0, j, k)
+//@   loop 2:
+//@     invariant[C02,C11] forall i, j, k {RangeAt(i, j, k)} :: 0 <= i && i < $i0 ==> !atPos(simp(id), i, j, k)
+//@     invariant[C02,C11] forall j, k {RangeAt($i0, j, k)} :: 0 <= j && j < $i1 ==> !atPos(simp(id), $i0, j, k)
+//@     invariant[C02,C11] forall k {RangeAt($i0, $i1, k)} :: 0 <= k && k < $i ==> !atPos(simp(id), $i0, $i1, k)
 //@ end
 
 // ---------------------------------------------------------------------------
 // node.go
 
+// The single-term matching rule of C02, written from the property text over two leaf values and the abstract
+// table position (Fam, Ver) of an id with '-or-later' stripped:
+//   refs: identical LicenseRef id and identical (or both absent) DocumentRef;
+//   licenses: identical WITH exception (or none) and either the same id, or ids of the same version family where
+//     neither has '+' and the versions are equal, exactly one has '+' and the other's version is equal or later,
+//     or both have '+'.   A license never matches a LicenseRef.
+//@ pred sameFam(x string, y string) = InT(simp(x)) && InT(simp(y)) && Fam(simp(x)) == Fam(simp(y))
+//@ pred excOK(a Tree, b Tree) = tlHasExc(a) == tlHasExc(b) && (tlHasExc(a) ==> tlExc(a) == tlExc(b))
+//@ pred verRule(a Tree, b Tree) = ite(tlPlus(a) && tlPlus(b), true, ite(tlPlus(a), Ver(simp(tlId(b))) >= Ver(simp(tlId(a))), ite(tlPlus(b), Ver(simp(tlId(a))) >= Ver(simp(tlId(b))), Ver(simp(tlId(a))) == Ver(simp(tlId(b))))))
+//@ pred licMatch(a Tree, b Tree) = isTLic(a) && isTLic(b) && excOK(a, b) && (tlId(a) == tlId(b) || (sameFam(tlId(a), tlId(b)) && verRule(a, b)))
+//@ pred refMatch(a Tree, b Tree) = isTRef(a) && isTRef(b) && trRef(a) == trRef(b) && trHasDoc(a) == trHasDoc(b) && (trHasDoc(a) ==> trDoc(a) == trDoc(b))
+//@ pred reconT(t Tree) = ite(isTLic(t), tlId(t) + ite(tlPlus(t), "+", "") + ite(tlHasExc(t), " WITH " + tlExc(t), ""), ite(trHasDoc(t), "DocumentRef-" + trDoc(t) + ":", "") + "LicenseRef-" + trRef(t))
+// what the code computes: the rule, or (same exception and) canonical strings equal up to letter case
+//@ pred matchT(a Tree, b Tree) = licMatch(a, b) || refMatch(a, b) || (isTLic(a) && isTLic(b) && excOK(a, b) && EqualFold(reconT(a), reconT(b)))
+//@ axiom forall x string {EqualFold(x, x)} :: EqualFold(x, x)
+
+//@ func (*node).reconstructedLicenseString
+//@   requires n != nil
+//@   modifies nothing
+//@   ensures[C03] n.role != 0 ==> result != nil
+//@   ensures[C02,C06] n.role != 0 ==> deref(result) == reconT(n.tree)
+//@ end
+
 //@ func (*nodePair).licensesAreCompatible
 //@   requires nodes != nil && nodes.firstNode != nil && nodes.secondNode != nil
 //@   modifies nothing
+//@   ensures[C02,C01,C11] result <==> (licMatch(nodes.firstNode.tree, nodes.secondNode.tree) || (isTLic(nodes.firstNode.tree) && isTLic(nodes.secondNode.tree) && excOK(nodes.firstNode.tree, nodes.secondNode.tree) && EqualFold(reconT(nodes.firstNode.tree), reconT(nodes.secondNode.tree))))
 //@ end
 
 //@ func (*nodePair).licenseRefsAreCompatible
 //@   requires nodes != nil && nodes.firstNode != nil && nodes.secondNode != nil
 //@   modifies nothing
+//@   ensures[C02,C01] result <==> refMatch(nodes.firstNode.tree, nodes.secondNode.tree)
 //@ end
 
 //@ func sortLicenses$1
@@ -183,6 +305,36 @@ package spdxexp
 //@   requires forall k :: 0 <= k && k < len(nodes) ==> nodes[k] != nil
 //@   modifies nothing
 //@ end
+
+// ---------------------------------------------------------------------------
+// Boolean semantics of an expression tree and of its expansion (C01, C06, C10).
+// m is an uninterpreted predicate "this term is covered": every expansion
+// contract is proved with m uninterpreted, hence for every m; Satisfies
+// instantiates it with "some allowed entry matches the term".
+//   sem(t)      truth of the tree t under m (AND needs both, OR needs either)
+//   all(s)      every term of the alternative s is covered
+//   den(R)      some alternative of R is covered;  denP(R,n): some of the first n
+// all/den are opaque functions of the array contents and the ghost tree heap,
+// axiomatised by elimination rules with explicit triggers and Skolem witnesses
+// (allw, denw); these axioms are the definitions of all/den, not assumptions
+// about the code.
+
+//@ fn m(t Tree) bool
+//@ def sem(t Tree) bool = ite(isTNode(t), ite(tnConj(t) == "and", sem(tnL(t)) && sem(tnR(t)), sem(tnL(t)) || sem(tnR(t))), m(t))
+
+//@ fn allc(c seq[*node], n int, T seq[Tree]) bool
+//@ fn allw(c seq[*node], n int, T seq[Tree]) int
+//@ axiom forall c seq[*node], n int, T seq[Tree], k int {allc(c, n, T), c[k]} :: allc(c, n, T) && 0 <= k && k < n ==> m(T[c[k]])
+//@ axiom forall c seq[*node], n int, T seq[Tree] {allc(c, n, T)} :: allc(c, n, T) || (0 <= allw(c, n, T) && allw(c, n, T) < n && !m(T[c[allw(c, n, T)]]))
+//@ pred allh(MP seq[seq[*node]], h []*node, T seq[Tree]) = allc(MP[arr(h)], len(h), T)
+//@ pred all(s []*node) = allc(elems(s), len(s), fieldHeap("node", "tree"))
+
+//@ fn denc(MP seq[seq[*node]], C seq[[]*node], n int, T seq[Tree]) bool
+//@ fn denw(MP seq[seq[*node]], C seq[[]*node], n int, T seq[Tree]) int
+//@ axiom forall MP seq[seq[*node]], C seq[[]*node], n int, T seq[Tree] {denc(MP, C, n, T)} :: denc(MP, C, n, T) ==> 0 <= denw(MP, C, n, T) && denw(MP, C, n, T) < n && allh(MP, C[denw(MP, C, n, T)], T)
+//@ axiom forall MP seq[seq[*node]], C seq[[]*node], n int, T seq[Tree], i int {denc(MP, C, n, T), C[i]} :: 0 <= i && i < n && allh(MP, C[i], T) ==> denc(MP, C, n, T)
+//@ pred denP(R [][]*node, n int) = denc(innerHeap(R), elems(R), n, fieldHeap("node", "tree"))
+//@ pred den(R [][]*node) = denP(R, len(R))
 
 // ---------------------------------------------------------------------------
 // satisfies.go, extracts.go, helpers.go
@@ -199,8 +351,15 @@ package spdxexp
 //@     invariant[C04] forall k :: 0 <= k && k < $i && !V(licenses[k]) ==> 0 <= cntInv(elems(licenses), k) && cntInv(elems(licenses), k) < len(invalidLicenses) && invalidLicenses[cntInv(elems(licenses), k)] == licenses[k]
 //@ end
 
+// Ptree(s): the tree value of parse(s) in terms of the token sequence of s and the reference grammar.
+//@ pred Ptree(s string) = tExpr(TokSeq(s), TokLen(s), 0)
+
 //@ func Satisfies
 //@   modifies nothing
+//@   assume call (*node).expand#0: forall t Tree {m(t)} :: m(t) <==> covered(t, allowedNodes)
+//@   ensures[C01,C10] !isErr(result1) ==> (result0 <==> sem(Ptree(testExpression)))
+//@   loop 0:
+//@     invariant[C01,C10] $i <= len(expandedExpression) && forall k :: 0 <= k && k < $i ==> !all(expandedExpression[k])
 //@   ensures[C04] isErr(result1) <==> (!V(testExpression) || len(allowedList) == 0 || exists k :: 0 <= k && k < len(allowedList) && (!V(allowedList[k]) || K(allowedList[k])))
 //@   ensures[C04] isErr(result1) ==> !result0
 //@ end
@@ -224,65 +383,96 @@ package spdxexp
 //@     invariant[C03] forall k :: 0 <= k && k < $i ==> leaf(nodes[k])
 //@ end
 
+// covered(t, allowed): some allowed node matches the term t (opaque, with Skolem witness covw; these axioms define it)
+//@ fn covc(t Tree, c seq[*node], n int, T seq[Tree]) bool
+//@ fn covw(t Tree, c seq[*node], n int, T seq[Tree]) int
+//@ axiom forall t Tree, c seq[*node], n int, T seq[Tree] {covc(t, c, n, T)} :: covc(t, c, n, T) ==> 0 <= covw(t, c, n, T) && covw(t, c, n, T) < n && matchT(t, T[c[covw(t, c, n, T)]])
+//@ axiom forall t Tree, c seq[*node], n int, T seq[Tree], j int {covc(t, c, n, T), c[j]} :: 0 <= j && j < n && matchT(t, T[c[j]]) ==> covc(t, c, n, T)
+//@ pred covered(t Tree, allowed []*node) = covc(t, elems(allowed), len(allowed), fieldHeap("node", "tree"))
+
 //@ func isCompatible
 //@   requires allLeaves(expressionPart) && allLeaves(allowed)
 //@   modifies nothing
+//@   ensures[C01,C07] result <==> (forall k :: 0 <= k && k < len(expressionPart) ==> covered(expressionPart[k].tree, allowed))
+//@   loop 0:
+//@     invariant[C01,C07] $i <= len(expressionPart) && forall k :: 0 <= k && k < $i ==> covered(expressionPart[k].tree, allowed)
+//@   loop 1:
+//@     invariant[C01,C07] $i0 < len(expressionPart) && expLicense == expressionPart[$i0] && forall k :: 0 <= k && k < $i0 ==> covered(expressionPart[k].tree, allowed)
+//@     invariant[C01,C07] $i <= len(allowed) && forall j :: 0 <= j && j < $i ==> !matchT(expLicense.tree, allowed[j].tree)
 //@ end
 
 //@ func (*node).expand
 //@   requires n != nil
 //@   modifies nothing
 //@   ensures[C03] okNest(result) && len(result) >= 1
+//@   ensures[C01,C10] den(result) <==> sem(n.tree)
 //@ end
 
 //@ func (*node).expandOr
-//@   requires n != nil && n.role == 0
+//@   requires n != nil && n.role == 0 && n.exp.conjunction == "or"
 //@   modifies nothing
-//@   ensures[C03] okNest(result) && len(result) >= 1 && freshNest(result)
+//@   ensures[C03] okNest(result) && len(result) >= 1 && freshNest(result) && distinctNest(result)
+//@   ensures[C01,C10] den(result) <==> sem(n.tree)
 //@ end
 
 //@ func expandOrTerm
-//@   requires term != nil && okNest(result)
+//@   requires term != nil && okNest(result) && distinctNest(result)
 //@   modifies arr(result)
-//@   ensures[C03] okNest(result0) && len(result0) >= len(result) + 1
+//@   ensures[C03] okNest(result0) && len(result0) >= len(result) + 1 && distinctNest(result0)
 //@   ensures[C03] fresh(result0) || arr(result0) == arr(result)
 //@   ensures[C03] forall i :: 0 <= i && i < len(result0) ==> fresh(result0[i]) || (i < len(result) && result0[i] == old(result[i]))
+//@   ensures[C01,C10] den(result0) <==> (old(den(result)) || sem(term.tree))
 //@ end
 
 //@ func (*node).expandAnd
-//@   requires n != nil && n.role == 0
+//@   requires n != nil && n.role == 0 && n.exp.conjunction == "and"
 //@   modifies nothing
-//@   ensures[C03] okNest(result) && len(result) >= 1 && freshNest(result)
+//@   ensures[C03] okNest(result) && len(result) >= 1 && freshNest(result) && distinctNest(result)
+//@   ensures[C01,C10] den(result) <==> sem(n.tree)
 //@ end
 
 //@ func expandAndTerm
 //@   requires term != nil
 //@   modifies nothing
-//@   ensures[C03] okNest(result) && len(result) >= 1 && freshNest(result)
+//@   ensures[C03] okNest(result) && len(result) >= 1 && freshNest(result) && distinctNest(result)
+//@   ensures[C01,C10] den(result) <==> sem(term.tree)
 //@ end
 
 //@ func appendTerms
 //@   requires okNest(left) && okNest(right)
 //@   modifies nothing
-//@   ensures[C03] okNest(result) && freshNest(result)
+//@   ensures[C03] okNest(result) && freshNest(result) && distinctNest(result)
 //@   ensures[C03] len(left) >= 1 && len(right) >= 1 ==> len(result) >= 1
+//@   ensures[C01,C10] den(result) <==> (old(den(left)) && old(den(right)))
 //@   loop 0:
-//@     invariant[C03] okNest(result) && freshNest(result)
+//@     invariant[C03] okNest(result) && freshNest(result) && distinctNest(result)
 //@     invariant[C03] len(left) >= 1 && $i >= 1 ==> len(result) >= 1
+//@     invariant[C01,C10] $i <= len(right) && (den(result) <==> (old(den(left)) && old(denP(right, $i))))
 //@   loop 1:
-//@     invariant[C03] okNest(result) && freshNest(result)
+//@     invariant[C03] okNest(result) && freshNest(result) && distinctNest(result)
 //@     invariant[C03] len(left) >= 1 && ($i0 >= 1 || $i >= 1) ==> len(result) >= 1
+//@     invariant[C01,C10] $i <= len(left) && $i0 < len(right) && r == old(right[$i0]) && (den(result) <==> ((old(den(left)) && old(denP(right, $i0))) || (old(denP(left, $i)) && old(all(right[$i0])))))
+//@   assert[C01,C10] after append#0: len(ret) == len(l) && (all(ret) <==> old(all(left[$i1])))
+//@   assert[C01,C10] after append#1: all(ret) <==> (old(all(left[$i1])) && old(all(right[$i0])))
+//@   assert[C01,C10] after append#2: den(ret) <==> (den(result) || all(tmp))
+//@   assert[C01,C10] after append#2: stepLeft: old(denP(left, $i1 + 1)) <==> (old(denP(left, $i1)) || old(all(left[$i1])))
 //@ end
 
 //@ func mergeTerms
 //@   requires okNest(left) && okNest(right)
+//@   requires[C01,C10] len(left) == 1 && len(right) == 1
 //@   modifies arr(left), arrs(left)
+//@   ensures[C01,C10] den(result) <==> (old(den(left)) && old(den(right)))
 //@   ensures[C03] okNest(result) && result == left
 //@   ensures[C03] forall i :: 0 <= i && i < len(left) ==> fresh(result[i]) || arr(result[i]) == arr(old(left[i]))
 //@   loop 0:
 //@     invariant[C03] okNest(left) && okNest(right)
 //@     invariant[C03] forall i :: 0 <= i && i < len(left) ==> fresh(left[i]) || arr(left[i]) == arr(old(left[i]))
+//@     invariant[C01,C10] $i == 0 ==> (all(left[0]) <==> old(all(left[0]))) && (all(right[0]) <==> old(all(right[0])))
+//@     invariant[C01,C10] $i >= 1 ==> (all(left[0]) <==> (old(all(left[0])) && old(all(right[0]))))
 //@   loop 1:
+//@     invariant[C01,C10] $i0 == 0 && ($i == 0 ==> (all(left[0]) <==> old(all(left[0]))) && (all(r) <==> old(all(right[0]))))
+//@     invariant[C01,C10] $i >= 1 ==> (all(left[0]) <==> (old(all(left[0])) && old(all(right[0]))))
 //@     invariant[C03] okNest(left) && okNest(right) && okAlt(r)
 //@     invariant[C03] forall i :: 0 <= i && i < len(left) ==> fresh(left[i]) || arr(left[i]) == arr(old(left[i]))
 //@ end
@@ -296,11 +486,13 @@ package spdxexp
 //@ end
 
 //@ func deepSort
-//@   requires okNest(nodes2d)
+//@   requires okNest(nodes2d) && distinctNest(nodes2d)
 //@   modifies arr(nodes2d), arrs(nodes2d)
 //@   ensures[C03] result == nodes2d && okNest(result)
+//@   ensures[C01,C10] den(result) <==> old(den(nodes2d))
 //@   loop 0:
-//@     invariant[C03] okNest(nodes2d)
+//@     invariant[C03] okNest(nodes2d) && distinctNest(nodes2d) && elems(nodes2d) == old(elems(nodes2d))
+//@     invariant[C01,C10] forall i :: 0 <= i && i < len(nodes2d) ==> (all(nodes2d[i]) <==> old(all(nodes2d[i])))
 //@ end
 
 //@ func deepSort$1
